@@ -4,17 +4,28 @@ import ast
 
 from harness.translate.main import unit, parse
 from harness.translate.pyx import Refuse, Tr, find_func, strip_doc, dotted
+from harness.translate.normalize import fold, body_differs
 
 
 def _ilm_pred(tree, name):
     """InstanceLabelMap.contains_or / contains_and as a boolean function of (pred_in, ref_in)."""
     f = find_func(tree, name, "InstanceLabelMap")
-    b = [ast.unparse(s) for s in strip_doc(f.body)]
-    if b[0] != "pred_in = True if pred_label is None else pred_label in self.labelmap":
-        raise Refuse(name + ": " + b[0])
-    if b[1] != "ref_in = True if ref_label is None else ref_label in self.labelmap.values()":
-        raise Refuse(name + ": " + b[1])
-    r = strip_doc(f.body)[2]
+    body = strip_doc(f.body)
+    PIN, RIN = "True if pred_label is None else pred_label in self.labelmap", "True if ref_label is None else ref_label in self.labelmap.values()"
+    if len(body) == 3:
+        b = [ast.unparse(s) for s in body]
+        if b[0] != "pred_in = " + PIN:
+            raise Refuse(name + ": " + b[0])
+        if b[1] != "ref_in = " + RIN:
+            raise Refuse(name + ": " + b[1])
+        r = body[2]
+    elif len(body) == 1:
+        # normalised spelling: the two memberships are written inside the return
+        r, cnt = fold(body[0], {PIN: "pred_in", RIN: "ref_in"})
+        if cnt != {"pred_in": 1, "ref_in": 1}:
+            raise Refuse(name + ": " + ast.unparse(body[0]))
+    else:
+        raise Refuse(name + " body")
     if not isinstance(r, ast.Return):
         raise Refuse(name + " return")
     t, ty = Tr({"pred_in": ("pin", "bool"), "ref_in": ("rin", "bool")}).expr(r.value)
@@ -56,8 +67,9 @@ def matcher_loop():
     if len(loops) != 1:
         raise Refuse("naive loop count")
     lp = loops[0]
-    if ast.unparse(lp.target) != "(matching_score, (ref_label, pred_label))" or ast.unparse(lp.iter) != "mm_pairs":
+    if ast.unparse(lp.target) != "(matching_score, (ref_label, pred_label))":
         raise Refuse("naive loop header " + ast.unparse(lp.target))
+    _candidates(f, lp, "naive")
     calls = {
         "labelmap.contains_or": lambda a, k=None: _args(a, ["p", "r"], ("cor", "bool")),
         "labelmap.contains_pred": lambda a, k=None: _args(a, ["p"], ("cp", "bool")),
@@ -70,47 +82,47 @@ def matcher_loop():
     out.append("Definition gen_naive_step (m2o cor cp beat : bool) : gen_action := " + _loop_body(lp.body, Tr(env, calls)) + ".")
     # what comes before the loop: candidates computed by _calc_matching_metric_of_overlapping_labels(pred, ref, ref_labels, metric)
     src = ast.unparse(f)
-    if "mm_pairs = _calc_matching_metric_of_overlapping_labels(pred_arr, ref_arr, ref_labels, matching_metric=self._matching_metric)" not in src:
-        raise Refuse("naive candidates call")
     if "pred_arr, ref_arr = (unmatched_instance_pair.prediction_arr, unmatched_instance_pair.reference_arr)" not in src:
         raise Refuse("naive arrays")
     # ---- merge loop
     f = find_func(mt, "_match_instances", "MaximizeMergeMatching")
     loops = [s for s in f.body if isinstance(s, ast.For)]
     lp = loops[0]
-    if ast.unparse(lp.target) != "(matching_score, (ref_label, pred_label))" or ast.unparse(lp.iter) != "mm_pairs":
+    if ast.unparse(lp.target) != "(matching_score, (ref_label, pred_label))":
         raise Refuse("merge loop header")
+    _candidates(f, lp, "merge")
     out.append("Inductive gen_maction := MSkip | MMerge | MSeed | MNone.")
     out.append("Definition gen_merge_step (decr : bool) (cp cr beat : bool) (new_better_eq new_eq : bool) : gen_maction := "
                + _merge_body(lp.body) + ".")
     g = find_func(mt, "new_combination_score", "MaximizeMergeMatching")
-    gs = [ast.unparse(s) for s in strip_doc(g.body)]
     want = ["pred_labels.append(new_pred_label)",
             "score = self._matching_metric(unmatched_instance_pair.reference_arr, prediction_arr=unmatched_instance_pair.prediction_arr, ref_instance_idx=ref_label, pred_instance_idx=pred_labels)",
             "return score"]
-    if gs != want:
-        raise Refuse("new_combination_score: " + str(gs))
+    if body_differs(g, want):
+        raise Refuse("new_combination_score: " + str(body_differs(g, want)))
     # ---- sort call and candidate scores
     fn = parse("panoptica/_functionals.py")
     f = find_func(fn, "_calc_matching_metric_of_overlapping_labels")
     src = ast.unparse(f)
-    if "mm_pairs = sorted(mm_pairs, key=lambda x: x[0], reverse=not matching_metric.decreasing)" not in src:
+    if "return sorted(mm_pairs, key=lambda x: x[0], reverse=not matching_metric.decreasing)" not in src \
+            and "mm_pairs = sorted(mm_pairs, key=lambda x: x[0], reverse=not matching_metric.decreasing)\n    return mm_pairs" not in src:
         raise Refuse("sort call")
     if "mm_values = pool.starmap(matching_metric.value, instance_pairs)" not in src:
         raise Refuse("starmap call")
     if "instance_pairs = [(reference_arr, prediction_arr, i[0], i[1]) for i in _calc_overlapping_labels(prediction_arr=prediction_arr, reference_arr=reference_arr, ref_labels=ref_labels)]" not in src:
         raise Refuse("instance_pairs")
-    if "mm_pairs = [(i, (instance_pairs[idx][2], instance_pairs[idx][3])) for idx, i in enumerate(mm_values)]" not in src:
+    # the scores are paired with the labels of the SAME candidate, in candidate order (either spelling)
+    if "mm_pairs = [(i, (instance_pairs[idx][2], instance_pairs[idx][3])) for idx, i in enumerate(mm_values)]" not in src \
+            and "mm_pairs = [(score, (pair[2], pair[3])) for score, pair in zip(mm_values, instance_pairs)]" not in src:
         raise Refuse("mm_pairs")
     out.append("Definition gen_sort_best_first_stable : bool := true.")
     # ---- pair code
     f = find_func(fn, "_calc_overlapping_labels")
-    b = [ast.unparse(s) for s in strip_doc(f.body)]
     want = ["overlap_arr = prediction_arr.astype(np.uint64)", "max_ref = int(max(ref_labels)) + 1",
             "overlap_arr = overlap_arr * max_ref + reference_arr", "overlap_arr[reference_arr == 0] = 0",
             "return [(int(i % max_ref), int(i // max_ref)) for i in np.unique(overlap_arr) if i > max_ref]"]
-    if b != want:
-        raise Refuse("_calc_overlapping_labels: " + str(b))
+    if body_differs(f, want):
+        raise Refuse("_calc_overlapping_labels: " + str(body_differs(f, want)))
     out.append("Definition gen_code_width : Z := 64.")
     out.append("Definition gen_code (p r maxref : Z) : Z := if r =? 0 then 0 else p * (maxref + 1) + r.")
     out.append("Definition gen_decode (i maxref : Z) : Z * Z := (i mod (maxref + 1), i / (maxref + 1)).")
@@ -119,7 +131,7 @@ def matcher_loop():
     f = find_func(mt, "map_instance_labels")
     src = ast.unparse(f)
     need = ["label_counter = int(max(ref_labels)) + 1", "pred_labelmap = labelmap.get_one_to_one_dictionary()",
-            "missed_pred_labels = list([p for p in pred_labels if p not in pred_labelmap])",
+            "missed_pred_labels = [p for p in pred_labels if p not in pred_labelmap]",
             "for p in missed_pred_labels:\n        pred_labelmap[p] = label_counter\n        label_counter += 1",
             "prediction_arr_relabeled = _map_labels(prediction_arr, pred_labelmap)"]
     for n in need:
@@ -127,15 +139,32 @@ def matcher_loop():
             raise Refuse("map_instance_labels: missing `" + n.split("\n")[0] + "`")
     out.append("Definition gen_fresh_start (maxref : Z) : Z := maxref + 1.")
     f = find_func(fn, "_map_labels")
-    b = [ast.unparse(s) for s in strip_doc(f.body)]
     want = ["max_value = max(int(arr.max()), int(max(label_map.keys())), int(max(label_map.values()))) + 1",
             "dtype = np.promote_types(arr.dtype, np.min_scalar_type(max_value))",
             "k = np.array(list(label_map.keys()), dtype=dtype)", "v = np.array(list(label_map.values()), dtype=dtype)",
             "mapping_ar = np.arange(max_value, dtype=dtype)", "mapping_ar[k] = v", "return mapping_ar[arr]"]
-    if b != want:
-        raise Refuse("_map_labels: " + str(b))
+    if body_differs(f, want):
+        raise Refuse("_map_labels: " + str(body_differs(f, want)))
     out.append("Definition gen_map_labels_is_lut_in_wide_dtype : bool := true.")
     return "\n".join(out) + "\n"
+
+
+def _candidates(f, lp, which):
+    """the loop runs over _calc_matching_metric_of_overlapping_labels(pred_arr, ref_arr, ref_labels, matching_metric=self._matching_metric),
+    written in the loop header or bound to a name (once) before the loop"""
+    it = lp.iter
+    if isinstance(it, ast.Name):
+        defs = [s for s in ast.walk(f) if isinstance(s, ast.Assign) and any(isinstance(t, ast.Name) and t.id == it.id for t in s.targets)]
+        if len(defs) != 1:
+            raise Refuse(which + " candidates are rebound")
+        it = defs[0].value
+    if not (isinstance(it, ast.Call) and ast.unparse(it.func) == "_calc_matching_metric_of_overlapping_labels"):
+        raise Refuse(which + " candidates call")
+    names = ["prediction_arr", "reference_arr", "ref_labels", "matching_metric"]
+    got = {names[i]: ast.unparse(a) for i, a in enumerate(it.args)}
+    got.update({k.arg: ast.unparse(k.value) for k in it.keywords})
+    if got != {"prediction_arr": "pred_arr", "reference_arr": "ref_arr", "ref_labels": "ref_labels", "matching_metric": "self._matching_metric"}:
+        raise Refuse(which + " candidates call arguments " + str(got))
 
 
 def _args(args, want, result):
@@ -169,6 +198,19 @@ def _loop_body(stmts, tr):
                 # the then-branch falls through into the rest
                 raise Refuse("fall-through branch")
         return f"(if {c} then {a} else {b})"
+    if isinstance(s, ast.Assign) and len(s.targets) == 1 and isinstance(s.targets[0], ast.Name) and rest:
+        # a local name for a (pure) condition: substituted into the rest of the body
+        name = s.targets[0].id
+        if name in tr.env:
+            raise Refuse("loop body re-assigns " + name)
+        t, ty = tr.expr(s.value)
+        if ty != "bool":
+            raise Refuse("local assignment of a non-boolean in the loop body")
+        tr.env[name] = (f"({t})", ty)
+        try:
+            return _loop_body(rest, tr)
+        finally:
+            del tr.env[name]
     raise Refuse("loop statement " + type(s).__name__)
 
 
